@@ -125,7 +125,8 @@ def seeded_patches(prop):
 
 def corpus_for(prop):
     from . import corpus
-    return [v for v in corpus.VARIANTS if prop in v["props"]] + seeded_patches(prop)
+    # seeded variants: the checks named for them; benign variants: EVERY check must stay silent on every behaviour-preserving edit
+    return [v for v in corpus.VARIANTS if prop in v["props"] or v["kind"] == "benign"] + seeded_patches(prop)
 
 
 def run_for_property(prop, verbose=True):
